@@ -5,12 +5,12 @@ import recvlib, senderlib
 # property -> list of (session family, n sessions quick/thorough, channel family, maxn, n behaviours quick/thorough)
 PLANS = {
     "C01": [("clean", 220, 2500, "clean", 99, None, None), ("wide", 10, None, "clean", 99, 10, None), ("many", None, None, "clean", 99, 8, None)],
-    "C02": [("small", 600, 2000, "boundary", 99, None, None), ("small", 200, 2000, "subsets", 13, 5000, 60000), ("small", 120, 600, "dups", 8, 2500, 30000),
+    "C02": [("small", 600, 2000, "boundary", 99, None, None), ("small", 200, 400, "subsets", 13, 5000, 60000), ("small", 120, 240, "dups", 8, 2500, 30000),
             ("car", 40, 200, "subsets", 16, 2500, 30000), ("medium", 40, None, "rloss", 999, 300, 8000), ("many", None, None, "rloss", 999, 40, None)],
-    "C03": [("small", 200, 2000, "perms", 6, 4000, 60000), ("small", 200, 2000, "corrupt", 99, 3000, 120000),
-            ("small", 100, 400, "dups", 8, 1500, 20000), ("car", 30, 120, "perms", 5, 1500, 20000),
+    "C03": [("small", 200, 400, "perms", 6, 4000, 60000), ("small", 200, 2000, "corrupt", 99, 3000, 120000),
+            ("small", 100, 200, "dups", 8, 1500, 20000), ("car", 30, 120, "perms", 5, 1500, 20000),
             ("medium", 24, 160, "rloss", 999, 200, 5000)],
-    "C09": [("small", 200, 2000, "writer", 99, 5000, 200000), ("small", 200, 2000, "perms", 6, 4000, 60000), ("small", 150, 600, "subsets", 13, 2000, 30000),
+    "C09": [("small", 200, 800, "writer", 99, 5000, 200000), ("small", 200, 400, "perms", 6, 4000, 60000), ("small", 150, 300, "subsets", 13, 2000, 30000),
             ("small", 150, 600, "corrupt", 99, 1500, 60000), ("car", 60, 300, "join", 99, 800, 40000)],
     "C16": [("car", 160, None, "join", 99, None, None)],
     "C19": [("exp", None, None, "expiry", 99, None, None), ("exp2", None, None, "expiry2", 99, None, None)],
